@@ -94,7 +94,7 @@ def rule_predicates(sc, dumps, fails):
             if I(a0["sa"]) == 0:
                 fails.append(("vote accepted without stake", {"scenario": sc, "step": k}))
             if a0["v"][ki]["p"] and a0["sw"] + G.DELAY > no:
-                fails.append(("re-vote accepted inside the lock period", {"scenario": sc, "step": k}))
+                fails.append(("re-vote accepted inside the lock period (a vote by an account that holds a vote record was accepted within VotingDelay of its Staking.When)", {"scenario": sc, "step": k}))
             if I(a1["v"][ki]["a"]) != I(a0["sa"]):
                 fails.append(("vote amount differs from the stake", {"scenario": sc, "step": k}))
         if not ok and not o.get("ghost"):
@@ -177,6 +177,8 @@ def run(ctx):
         scs.append(G.gen_fork_scenario(ctx.rng))
     for i in range(10 if quick else 300):
         scs.append(G.gen_param_scenario(ctx.rng))
+    for i in range(9 if quick else 300):      # vote -> full unstake -> re-stake -> re-vote at -1 / 0 / +1 around the lock boundary
+        scs.append(G.gen_revote_scenario(ctx.rng, offset=[-1, 0, 1][i % 3] if i < 6 else None))
     if not quick:
         fam = G.exhaustive_family(3)
         scs += fam
